@@ -311,21 +311,14 @@ def lines_end_in_trimesh(lines: np.ndarray, faces: np.ndarray) -> np.ndarray:
     area2 = v_dot_cross3d(b, c, d)
     area3 = v_dot_cross3d(c, a, d)
 
+    # the line passes through the facet (interior or boundary) when the signed
+    # areas that are not zero all have the same sign. A zero area alone only
+    # says that the line meets the (infinite) line through an edge.
     eps = 1e-12
-    pass_through_boundary = (
-        (np.abs(area1) < eps) | (np.abs(area2) < eps) | (np.abs(area3) < eps)
+    signs = np.array(
+        [np.where(np.abs(ar) < eps, 0.0, np.sign(ar)) for ar in (area1, area2, area3)]
     )
-    # print('pass_through_boundary:')
-    # print(pass_through_boundary)
-
-    area1 = np.sign(area1)
-    area2 = np.sign(area2)
-    area3 = np.sign(area3)
-    pass_through_inside = (area1 == area2) * (area2 == area3)
-    # print('pass_through_inside:')
-    # print(pass_through_inside)
-
-    pass_through = pass_through_boundary | pass_through_inside
+    pass_through = ~(np.any(signs > 0, axis=0) & np.any(signs < 0, axis=0))
 
     # Part 3 ---------------------------
     result_cross = pass_through * plane_cross
